@@ -27,5 +27,14 @@ Definition c_div (t : cty) (a b : Z) := if b =? 0 then None else wrap t (Z.quot 
 Definition c_rem (t : cty) (a b : Z) :=
   if b =? 0 then None else match wrap t (Z.quot a b) with Some _ => wrap t (Z.rem a b) | None => None end.
 Definition c_cast (t : cty) (a : Z) := wrap t a.
+(* bitwise operators: only on the unsigned 64-bit type (the translator refuses them on signed operands); operands are
+   values of the type, i.e. in [0, 2^64).  A shift count that is negative or >= the width is undefined. *)
+Definition c_or (t : cty) (a b : Z) := match t with U64 => wrap t (Z.lor a b) | _ => None end.
+Definition c_and (t : cty) (a b : Z) := match t with U64 => wrap t (Z.land a b) | _ => None end.
+Definition c_xor (t : cty) (a b : Z) := match t with U64 => wrap t (Z.lxor a b) | _ => None end.
+Definition c_shr (t : cty) (a b : Z) :=
+  match t with U64 => if (0 <=? b) && (b <? 64) then wrap t (Z.shiftr a b) else None | _ => None end.
+Definition c_shl (t : cty) (a b : Z) :=
+  match t with U64 => if (0 <=? b) && (b <? 64) then wrap t (Z.shiftl a b) else None | _ => None end.
 Definition c_bool (b : bool) : option Z := Some (if b then 1 else 0).
 Definition c_true (a : Z) : bool := negb (a =? 0).
